@@ -220,6 +220,9 @@ class ffunc_count(ffunc):
             return (counts,)
         else:
             vcount = numpy.sum(self.validity, axis=0)
+            if not self.validity.shape:
+                # Scalar weight: its validity applies to each of the N rows.
+                vcount = vcount * N
             valid_counts = numpy.zeros(cube.working_shape, dtype=int)
             valid_counts[cube.corner] = vcount
             if self.ignore_missing:
@@ -227,7 +230,7 @@ class ffunc_count(ffunc):
             else:
                 missing_counts = numpy.zeros(cube.working_shape, dtype=int)
                 missing_counts[cube.corner] = (
-                    len(self.validity) if self.validity.shape else 1
+                    len(self.validity) if self.validity.shape else N
                 ) - vcount
                 return counts, valid_counts, missing_counts
 
